@@ -97,5 +97,21 @@ theorem safety_invariant_from_cold_start :
           l.db.requests = [] → l.db.outgoing = [] → l.db.image.shards = [] → SysInv size l :=
   @_root_.Drummer.sysInv_cold
 
+theorem fleet_model_follows_agent_table :
+    ∀ (l : Loop) (h : Host) (r : Request),
+      Host.run? h r.shardId = none →
+        (r.join = false → r.restore = false → Option.isSome (Loop.group? l r.shardId) = false) →
+          instantiate r.join r.restore (Option.isSome (Host.dataGet h r.shardId r.instantiateReplicaId)) ≠
+              InstOutcome.panic →
+            if
+                InstOutcome.started
+                    (instantiate r.join r.restore (Option.isSome (Host.dataGet h r.shardId r.instantiateReplicaId))) =
+                  true then
+              ∃ l' h',
+                Loop.execCreate l h r = Loop.setHost l' h' ∧
+                  Option.map (fun x => x.id) (Host.run? h' r.shardId) = some r.instantiateReplicaId
+            else Loop.execCreate l h r = l :=
+  @_root_.Drummer.execCreate_follows_table
+
 end C01
 end Drummer
